@@ -319,6 +319,40 @@ def r7(tree, rep):
               what="the zip stream does not contain each walked path exactly once under its relative name")
 
 
+def r10_r11(tree, rep):
+    """R10: FileConsumer.write puts the data into the file BEFORE it runs any callback.  The progress callback is application code and
+    may re-enter the connection (pause/resume flushes buffered records synchronously): whatever it does, the file then holds the
+    records in arrival order, and a hash that saw them in another order makes the transfer FAIL - never succeed with a permuted file.
+    R11: the JSON codec of the control messages (offer, answer, text message) is plain json + UTF-8: no Unicode normalisation, which
+    would silently rewrite a text message or a file name that is not in NFC."""
+    from ..cfg import build
+    TRANSIT = "src/wormhole/transit.py"
+    fn = tree.func(TRANSIT, "FileConsumer", "write")
+    g = build(fn)
+    p0 = params(fn)[0] if params(fn) else None
+    fw = g.call_nodes(lambda c: isinstance(c.func, ast.Attribute) and c.func.attr == "write" and is_self_attr(c.func.value)
+                      and len(c.args) == 1 and isinstance(c.args[0], ast.Name) and c.args[0].id == p0)
+    others = [n for n in g.call_nodes(lambda c: True) if n not in fw
+              and not all(isinstance(c.func, ast.Name) and c.func.id in ("len", "isinstance") for c in ast.walk(g.stmt[n] if isinstance(g.stmt[n], ast.AST) else g.stmt[n][1])
+                          if isinstance(c, ast.Call))]
+    ok = len(fw) == 1 and g.must_pass(fw) and not g.precedes(fw, others)
+    rep.check("C04.R10", "FileConsumer.write hands the data to the file first, unmodified, before any callback (progress, hasher) runs", ok,
+              site(fn, TRANSIT), key="C04.R10:FileConsumer.write:file-first",
+              what="FileConsumer.write runs a callback before the data is in the file: a progress callback that re-enters the connection "
+                   "(pauseProducing / resumeProducing flushing the next record) gets that record written first - the file is permuted while "
+                   "the hash, taken in arrival order, still matches the sender's: both sides report success for a wrong file")
+    UTIL = "src/wormhole/util.py"
+    for name in ("dict_to_bytes", "bytes_to_dict"):
+        f = tree.func(UTIL, None, name)
+        calls = [dotted(c.func) or "" for c in ast.walk(f) if isinstance(c, ast.Call)]
+        bad = [c for c in calls if c.split(".")[-1] in ("to_bytes", "normalize", "casefold", "lower", "upper", "strip")]
+        js = [c for c in calls if c in ("json.dumps", "json.loads")]
+        rep.check("C04.R11", "%s is plain JSON + UTF-8 (calls: %s): no normalisation or other rewriting of the text it carries" % (name, sorted(set(calls))),
+                  not bad and len(js) == 1, site(f, UTIL), key="C04.R11:%s:plain-json" % name,
+                  what="%s passes the JSON text through %s: a text message (or an offered file name) that is not already in that form is "
+                       "silently changed in transit while both sides report success" % (name, bad))
+
+
 def run(tree, rep, tier):
     # a failure while unpacking one member (disk full, refused write) is a failed transfer: no handler in _extract_file / _write_directory turns
     # an exception of zf.extract / os.chmod / open / os.rename into a normal return
@@ -340,6 +374,7 @@ def run(tree, rep, tier):
     r4(tree, rep)
     r5(tree, rep)
     r6(tree, rep)
+    r10_r11(tree, rep)
 
 
 TR = "src/wormhole/transit.py"
